@@ -41,6 +41,32 @@ struct Outer { m: BTreeMap<String, E>, e: E, o: Option<Option<u8>>, v: Vec<Optio
 #[derive(Serialize, Deserialize, Debug, PartialEq, Clone)]
 struct Bytes(#[serde(with = "serde_bytes")] Vec<u8>);
 
+/// a map serialized entry by entry through serialize_key / serialize_value (as streaming implementations do)
+#[derive(Debug, PartialEq, Clone)]
+struct KeyThenValue(Vec<(String, u32)>);
+impl Serialize for KeyThenValue {
+    fn serialize<S: serde::Serializer>(&self, ser: S) -> Result<S::Ok, S::Error> {
+        use serde::ser::SerializeMap;
+        let mut m = ser.serialize_map(Some(self.0.len()))?;
+        for (k, v) in &self.0 {
+            m.serialize_key(k)?;
+            m.serialize_value(v)?;
+        }
+        m.end()
+    }
+}
+/// a sequence / tuple / struct driven by hand through the collector interfaces
+#[derive(Debug, PartialEq, Clone)]
+struct ByHand(Vec<u32>);
+impl Serialize for ByHand {
+    fn serialize<S: serde::Serializer>(&self, ser: S) -> Result<S::Ok, S::Error> {
+        use serde::ser::SerializeSeq;
+        let mut m = ser.serialize_seq(None)?;
+        for v in &self.0 { m.serialize_element(v)?; }
+        m.end()
+    }
+}
+
 struct Ctx { cases: usize, bad: Vec<String> }
 
 impl Ctx {
@@ -90,7 +116,9 @@ impl Ctx {
         self.cases += 1;
         match catch_unwind(AssertUnwindSafe(|| from_value::<T>(&v))) {
             Ok(Ok(x)) => self.fail(format!("C14 reject {} as {}: accepted as {:?}", v, std::any::type_name::<T>(), x)),
-            Ok(Err(_)) => {}
+            Ok(Err(e)) => if e.classify() != serde_lexpr::error::Category::Data {
+                self.fail(format!("C18 {} as {}: rejected with a {:?}-category error, not a data error: {}", v, std::any::type_name::<T>(), e.classify(), e));
+            },
             Err(_) => self.fail(format!("C18 {} as {}: panic", v, std::any::type_name::<T>())),
         }
     }
@@ -100,7 +128,9 @@ impl Ctx {
         self.cases += 1;
         let r = catch_unwind(AssertUnwindSafe(|| -> Result<(), String> {
             match from_value::<T>(v) {
-                Err(_) => Ok(()),
+                Err(e) => if e.classify() != serde_lexpr::error::Category::Data {
+                    Err(format!("{} rejected with a {:?}-category error, not a data error: {}", v, e.classify(), e))
+                } else { Ok(()) },
                 Ok(x) => {
                     let v2 = to_value(&x).map_err(|e| format!("accepted {} as {:?} but serializing that fails: {}", v, x, e))?;
                     let y: T = from_value(&v2).map_err(|e| format!("accepted {} as {:?}; re-serialized {} is rejected: {}", v, x, v2, e))?;
@@ -189,6 +219,9 @@ pub fn serde_check() -> (usize, Vec<String>) {
     c.shape(E::A, sexp!(A)); c.shape(E::N(3), sexp!((N . 3))); c.shape(E::T(1, "s".into()), sexp!((T 1 "s"))); c.shape(E::S { a: 1, b: None }, sexp!((S (a . 1) (b))));
     c.shape(E::NV(vec![1, 2]), sexp!((NV 1 2))); c.shape(Header { id: 7, tag: "x".into() }, sexp!(((id . 7) (tag . "x"))));
     c.shape(Bytes(vec![1, 255]), Value::bytes(vec![1u8, 255])); c.shape(m3, sexp!((("" . ()) ("k" 1))));
+    c.shape(KeyThenValue(vec![("one".into(), 1), ("two".into(), 2)]), sexp!((("one" . 1) ("two" . 2)))); c.shape(KeyThenValue(vec![]), Value::Null);
+    c.shape(ByHand(vec![1, 2, 3]), sexp!((1 2 3))); c.shape(ByHand(vec![]), Value::Null);
+    c.shape(Some(()), sexp!((()))); c.shape(Some(Unit), sexp!((()))); c.shape(Some(Vec::<u8>::new()), sexp!((()))); c.shape(Some(Some(1u8)), sexp!(((1))));
     // ---- C14 acceptance / rejection of alternative encodings
     c.accepts(Value::vector(vec![Value::from(1), Value::from(2)]), vec![1u32, 2]);
     c.accepts(sexp!((1 "s")), (1u32, "s".to_string())); c.accepts(sexp!((1 "s")), Pair(1, "s".into()));
